@@ -94,6 +94,15 @@ def flags(repo):
         out["criSkipsComments"] = True
     else:
         raise ValueError("CheckRemainingInput: unknown separator skipping after in.clear()")
+    # the delimiter test: bare strchr (matches the list's terminating NUL) or the guarded helper
+    n_strchr, n_isd = len(re.findall(r"\bstrchr\(\s*delimiterList\s*,\s*c\s*\)", cr)), len(re.findall(r"\bIsDelimiter\(\s*delimiterList\s*,\s*c\s*\)", cr))
+    if (n_strchr, n_isd) == (3, 0):
+        out["nulIsDelim"] = True
+    elif (n_strchr, n_isd) == (0, 3) and re.search(
+            r"static\s+bool\s+IsDelimiter\([^)]*\)\s*\{\s*return\s+c\s*!=\s*'\\0'\s*&&\s*strchr\(\s*delimiterList\s*,\s*c\s*\)\s*!=\s*NULL\s*;\s*\}", _strip(st)):
+        out["nulIsDelim"] = False
+    else:
+        raise ValueError(f"CheckRemainingInput: delimiter test changed ({n_strchr} strchr, {n_isd} IsDelimiter)")
 
     # ---- aggregate element loops
     vals = []
@@ -178,12 +187,23 @@ def flags(repo):
     old_shape = r"if\(\s*c\s*!=\s*'E'\s*\)\s*\{\s*in\s*>>\s*c\s*;\s*\}"
     new_shape = (r"if\(\s*c\s*==\s*';'\s*\)\s*\{\s*in\s*>>\s*c\s*;\s*\}\s*else\s+if\(\s*c\s*!=\s*'E'\s*\)\s*\{[^{}]*"
                  r"obj->Error\(\)\.GreaterSeverity\(\s*SEVERITY_WARNING\s*\)\s*;\s*sev\s*=\s*obj->Error\(\)\.severity\(\)\s*;\s*\}")
-    n_peek = len(re.findall(r"c\s*=\s*in\.peek\(\)\s*;\s*if\(\s*c\s*(?:!=\s*'E'|==\s*';')\s*\)", rib))
+    # (third shape) a record that was not read cleanly is re-synchronised from its start before the `;` test
+    resync = (r"if\(\s*sev\s*<=\s*SEVERITY_WARNING\s*&&\s*recStart\s*!=\s*std::streampos\(\s*-1\s*\)\s*\)\s*\{\s*in\.clear\(\)\s*;\s*"
+              r"in\.seekg\(\s*recStart\s*\)\s*;\s*SkipInstance\(\s*in\s*,\s*tmpbuf\s*\)\s*;\s*\}\s*else\s+")
+    n_peek = len(re.findall(r"c\s*=\s*in\.peek\(\)\s*;\s*if\(\s*(?:c\s*(?:!=\s*'E'|==\s*';')|sev\s*<=)", rib))
     n_old = len(re.findall(r"c\s*=\s*in\.peek\(\)\s*;\s*" + old_shape, rib))
     n_new = len(re.findall(r"c\s*=\s*in\.peek\(\)\s*;\s*" + new_shape, rib))
-    if n_peek != 2 or (n_old, n_new) not in ((2, 0), (0, 2)):
-        raise ValueError(f"ReadInstance: handling of the terminating ';' changed ({n_peek} sites, {n_old} old, {n_new} new)")
-    out["missingSemicolonReported"] = n_new == 2
+    n_rs = len(re.findall(r"c\s*=\s*in\.peek\(\)\s*;\s*" + resync + new_shape, rib))
+    if n_peek != 2 or (n_old, n_new, n_rs) not in ((2, 0, 0), (0, 2, 0), (0, 0, 2)):
+        raise ValueError(f"ReadInstance: handling of the terminating ';' changed ({n_peek} sites, {n_old} old, {n_new} new, {n_rs} resync)")
+    out["missingSemicolonReported"] = n_new == 2 or n_rs == 2
+    out["errorResyncsFromStart"] = n_rs == 2
+    n_tell = len(re.findall(r"std::streampos\s+recStart\s*=\s*in\.tellg\(\)\s*;", rib))
+    n_use = len(re.findall(r"\brecStart\b", rib))
+    if (n_tell, n_use) != ((1, 5) if n_rs == 2 else (0, 0)):
+        raise ValueError(f"ReadInstance: record start bookkeeping changed ({n_tell} tellg, {n_use} uses)")
+    if n_rs == 2 and not re.search(r"ReadTokenSeparator\(\s*in\s*,\s*&cmtStr\s*\)\s*;\s*std::streampos\s+recStart\s*=\s*in\.tellg\(\)\s*;\s*c\s*=\s*in\.peek\(\)", rib):
+        raise ValueError("ReadInstance: the record start is not taken right after the token separator that follows `=`")
     # state switch of ReadInstance
     if not re.search(r"case\s+SEVERITY_NULL:\s*case\s+SEVERITY_USERMSG:\s*if\(\s*_fileType\s*!=\s*WORKING_SESSION\s*\)\s*\{\s*node->ChangeState\(\s*completeSE\s*\)", rib):
         raise ValueError("ReadInstance: completeSE rule changed")
@@ -222,6 +242,22 @@ def flags(repo):
     for body, what in [(ri, "ReadInteger"), (rr_, "ReadReal"), (rn, "ReadNumber")]:
         if not re.search(r"CheckRemainingInput\(\s*in,\s*err,", body):
             raise ValueError(f"{what}: no CheckRemainingInput")
+    # ReadReal: a failed conversion is reported unless the input was blank / only when characters were collected
+    if re.search(r"if\(\s*!\s*blank\s*\)\s*\{[^{}]*err->GreaterSeverity\(\s*SEVERITY_WARNING\s*\)", rr_) and \
+            re.search(r"bool\s+blank\s*=\s*in\.eof\(\)\s*;", rr_):
+        out["realFailUnlessBlank"] = True
+    elif "blank" not in rr_:
+        out["realFailUnlessBlank"] = False
+    else:
+        raise ValueError("ReadReal: unknown use of `blank`")
+    # ReadEntityRef: something that is neither a reference nor a delimiter is reported by the reader itself
+    rer = _strip(_body(ai, r"SDAI_Application_instance\s*\*\s*ReadEntityRef\(\s*istream\s*&\s*in", "ReadEntityRef"))
+    if re.search(r"bool\s+gotChar\s*=\s*!in\.fail\(\)\s*;\s*in\.putback\(\s*c\s*\)\s*;\s*if\(\s*gotChar\s*&&[^{}]*\)\s*\{[^{}]*err->GreaterSeverity\(\s*SEVERITY_WARNING\s*\)", rer):
+        out["refReportsNonRef"] = True
+    elif "gotChar" not in rer:
+        out["refReportsNonRef"] = False
+    else:
+        raise ValueError("ReadEntityRef: unknown use of `gotChar`")
     m = re.search(r"char\s+buf\s*\[\s*(\d+)\s*\]\s*;", rr_)
     if m:
         out["realBuf"] = int(m.group(1))
@@ -257,7 +293,8 @@ def rwCfg : StepModel.P21.RWCfg :=
     complexReportsError := {_b(f['complexReportsError'])},
     skipInstanceSkipsComments := {_b(f['skipInstanceSkipsComments'])},
     missingSemicolonReported := {_b(f['missingSemicolonReported'])},
-    fillerOnlyForDollar := {_b(f['fillerOnlyForDollar'])} }}
+    fillerOnlyForDollar := {_b(f['fillerOnlyForDollar'])},
+    errorResyncsFromStart := {_b(f['errorResyncsFromStart'])} }}
 
 /-- the literal-level switches, re-derived by this extractor (C09's `Generated.lexCfg` is the primary tie for them) -/
 def rwLexCfg : StepModel.P21.LexCfg :=
@@ -265,7 +302,8 @@ def rwLexCfg : StepModel.P21.LexCfg :=
     numberReportsFail := {_b(f['numberReportsFail'])}, logicalRejectsUnset := {_b(f['logicalRejectsUnset'])},
     binaryRejectsEmpty := {_b(f['binaryRejectsEmpty'])}, dollarKeepsError := {_b(f['dollarKeepsError'])},
     asStrUsesWriteReal := false, criSkipsComments := {_b(f['criSkipsComments'])}, realBuf := {f['realBuf']},
-    realPrecision := 15 }}
+    realPrecision := 15, nulIsDelim := {_b(f['nulIsDelim'])}, realFailUnlessBlank := {_b(f['realFailUnlessBlank'])},
+    refReportsNonRef := {_b(f['refReportsNonRef'])} }}
 
 end StepModel.Generated
 """
